@@ -399,4 +399,9 @@ def main_wrapper(fn):
     except MachineryError as e:
         sys.stderr.write("MACHINERY FAILURE: %s\n" % e)
         sys.exit(2)
+    except Exception:       # a bug in the harness (or an unanticipated library exception): never a verdict
+        import traceback
+        traceback.print_exc()
+        sys.stderr.write("MACHINERY FAILURE: unexpected exception in the driver (see traceback)\n")
+        sys.exit(2)
     sys.exit(rc)
